@@ -977,7 +977,11 @@ def rule_N5(ctx):
     ex = extract(prog, f)
     dfs = ex.calls("rustworkx.dfs_search")
     if len(dfs) != 1 or len(dfs[0].args) != 3 or dfs[0].guards:
-        unrec("%s: %d unconditional rx.dfs_search(graph, sources, visitor) calls" % (f.qualname, len(dfs)))
+        # not the recognised post-order traversal.  The refresh must recompute every node after all of its
+        # children; an order derived from graph indices, insertion order or a pre-order walk does not (a grafted
+        # subtree gets higher indices than its new parent).  Only a DFS finish-order visitor is accepted.
+        ctx.fail("N5", f.qualname + ": full refresh in depth-first finish (post-) order", f.where(), "Tree.update does not refresh through one unconditional rx.dfs_search(graph, [root], visitor) with a finish_vertex visitor (%d such calls found): a parent can be recomputed before its children" % len(dfs), construct=f.qualname, stmt="dfs_search post-order")
+        return
     g, srcs, vis = dfs[0].args
     root_idx = vkey(Poly.atom(("sub", vkey(Poly.atom(("attr", Pk(0), "_node_indices"))), vkey(Poly.atom(("attr", Pk(0), "_ROOT_NODE_NAME"))))))
     ok = vkey(g) == vkey(Poly.atom(("attr", Pk(0), "_graph"))) and isinstance(srcs, AList) and not srcs.doms and len(srcs.items) == 1 and vkey(srcs.items[0]) == root_idx
@@ -1294,6 +1298,16 @@ def run(ctx):
     rule_N5(ctx)
     rule_N6(ctx)
     rule_N7(ctx)
+    # the recursion is evaluated through two memoised entry points: the reported likelihood is the exact
+    # marginal only if a cache hit returns what the recursion would compute (same rule objects as C14)
+    from . import C14
+
+    from ..formula import imported
+
+    ctx._own_rules = set(ctx.rule_min)
+    imported(ctx, C14.rule_K2)
+    imported(ctx, C14.rule_K3)
+    imported(ctx, C14.rule_K4)
 
 
 # Self-test catalogue: one textual edit each, applied to a scratch copy (see selftest.py).
